@@ -8,9 +8,10 @@ replay = _tomoreplay.replay
 
 
 def _job(job):
-    n, conn, perm = job
+    n, conn, perm = job[:3]
+    warm = job[3] if len(job) > 3 else None
     pr = _tomoprop.Prover()
-    problems, st = _tomoprop.full_tomography(n, conn, perm, pr, with_density=(n <= 4))
+    problems, st = _tomoprop.full_tomography(n, conn, perm, pr, with_density=(n <= 4), warm=warm)
     return dict(problems=problems, st=st, q=dict(n=pr.n, t=pr.t, verdicts=pr.verdicts))
 
 
@@ -22,6 +23,7 @@ def run(tier, seed):
     nmax = 5 if tier == "quick" else 6
     ck.bounds += ["the state is symbolic: all 4^n Pauli coefficients are free real unknowns (superset of all density matrices); every configuration with n<=%d" % nmax,
                   "the whole register also given as an explicit qubit list: every order for n<=3, seeded orders for n=4,5 (both modes, both call orders)",
+                  "history step: a complete tomography of the same register size with another connectivity evaluated first in the same interpreter (all ordered pairs of configurations n<=4, seeded pairs n=5)",
                   "all 4^n reported expectation values and (n<=4) all density-matrix entries are proved equal to the expected linear forms by one LRA validity query per configuration"]
     ck.outside += ["floating-point rounding (statistics and arithmetic are exact rationals in the encoding)", "n=6 in the quick tier"]
     ck.assumptions += ["exact outcome distributions are derived from the returned circuits' gate lists with ztab (validated against qiskit on this run)"]
@@ -38,17 +40,26 @@ def run(tier, seed):
                 p = list(range(n))
                 rnd.shuffle(p)
                 jobs.append((n, c, p))
+    # history: the same register size evaluated with ANOTHER connectivity first, in the same interpreter (every ordered pair
+    # of configurations for n<=4; n=5: every configuration after one seeded other one; thorough: every ordered pair n<=5)
+    for (n, c) in ADVERTISED:
+        others = [c2 for (n2, c2) in ADVERTISED if n2 == n and c2 != c]
+        if n > nmax or n > 5 or not others:
+            continue
+        for w in (others if (n <= 4 or tier == "thorough") else [rnd.choice(others)]):
+            jobs.append((n, c, None, w))
     jobs.sort(key=lambda j: -j[0])
     cands = []
     for job, r in harness.pmap(_job, jobs):
-        ck.count("%d-%s%s" % (job[0], job[1], "" if job[2] is None else " list"), n_queries=r["q"]["n"], solver_s=r["q"]["t"], obligations=max(1, r["st"].get("pairs", 0)), discharged=max(1, r["st"].get("pairs", 0)) if not r["problems"] else 0,
-                 verdicts=r["q"]["verdicts"], paths=r["st"].get("circuits", 0), sig=["%d-%s:%s:%d" % (job[0], job[1], job[2], i) for i in range(r["st"].get("pairs", 0))])
+        ck.count("%d-%s%s" % (job[0], job[1], (" after %s" % job[3]) if len(job) > 3 else ("" if job[2] is None else " list")), n_queries=r["q"]["n"], solver_s=r["q"]["t"], obligations=max(1, r["st"].get("pairs", 0)), discharged=max(1, r["st"].get("pairs", 0)) if not r["problems"] else 0,
+                 verdicts=r["q"]["verdicts"], paths=r["st"].get("circuits", 0), sig=["%d-%s:%s:%d" % (job[0], job[1], job[2] if len(job) == 3 else "after-" + job[3], i) for i in range(r["st"].get("pairs", 0))])
         ck.sample("config", dict(n=job[0], conn=job[1], circuits=r["st"].get("circuits"), obligations=r["st"].get("pairs")))
         for p in r["problems"]:
             if p == "SOLVER-UNKNOWN":
                 ck.harness_error("solver unknown %s" % (job,))
             else:
-                cands.append(("%d-%s %s" % job, dict(kind="tomo", which="tomography", N=job[0], conn=job[1], mq=job[2]), "%d-%s list %s: %s" % (job[0], job[1], job[2], p)))
+                cands.append(("%d-%s %s %s" % (job[0], job[1], job[2], job[3:]), dict(kind="tomo", which="tomography", N=job[0], conn=job[1], mq=job[2], warm=(job[3] if len(job) > 3 else None)),
+                              "%d-%s list %s%s: %s" % (job[0], job[1], job[2], (" after a tomography with connectivity %s in the same interpreter" % job[3]) if len(job) > 3 else "", p)))
     seen = set()
     ck.candidates([c for c in cands if not (c[0] in seen or seen.add(c[0]))][:20])
     # vacuity: a wrong expectation must be refuted by the prover
